@@ -316,10 +316,10 @@ func (c c16Iso) String() string {
 func TestC16(t *testing.T) {
 	rep := newReport()
 	defer rep.Write(t)
-	rep.Rule = "(codec) all label lengths 0..256 x 6 packet payloads incl. ones starting with the magic byte; streams: all lengths 1..255 x 4 payloads under 1-byte-at-a-time delivery, every single split point of the first 2+len+3 bytes, every pair of split points for lengths 1,2,7,255, EOF at every header offset; (isolation) 5x5 sender/receiver labels x SkipInboundLabelCheck x encryption x 15 genuine message families on the packet and stream paths against a pristine populated receiver"
+	rep.Rule = "(codec) all label lengths 0..256 x 6 packet payloads incl. ones starting with the magic byte; streams: all lengths 1..255 x 4 payloads under 1-byte-at-a-time delivery, every single split point of the first 2+len+3 bytes, every pair of split points for lengths 1,2,7,255, EOF at every header offset; (isolation) 6x6 sender/receiver labels x SkipInboundLabelCheck x encryption x 15 genuine message families on the packet and stream paths against a pristine populated receiver"
 	rep.Assumptions = []string{"the isolation oracle states a necessary condition for having an effect; compatible-looking pairs that still fail to talk are not violations", "mixed-label world: 4 nodes, two labels, <= 1 packet fault per history"}
-	labels := []string{"", "a", "ab", "b", strings.Repeat("L", 255)}
-	rep.Bounds = map[string]any{"labels": "none, a, ab, b, 255 B", "codec_label_lengths": "0..256"}
+	labels := []string{"", "a", "ab", "AB", "b", strings.Repeat("L", 255)} // AB/ab: equal only under case folding
+	rep.Bounds = map[string]any{"labels": "none, a, ab, AB, b, 255 B", "codec_label_lengths": "0..256"}
 	var mrp c16MixScn
 	if loadReplay(&mrp) && len(mrp.Prefix) > 0 {
 		x := runC16Mixed(t, mrp)
